@@ -8,7 +8,7 @@
    invariant MI and Hoare proof in Proofs/MeekRun.v, MeekCount.v). *)
 From Coq Require Import ZArith List Bool String PArith Lia.
 From Droop Require Import Model.KernelBase Model.Arith Model.Prelude Model.State Model.Prims Model.RulesMeek Model.Election
-  Proofs.Zlike Proofs.MeekDist Proofs.MeekKf Proofs.ConserveCount Proofs.MeekRun Proofs.MeekCount.
+  Proofs.Zlike Proofs.MeekDist Proofs.MeekKf Proofs.ConserveCount Proofs.MeekRun Proofs.MeekKfRun Proofs.MeekCount.
 Import ListNotations.
 Open Scope Z_scope.
 
@@ -74,6 +74,25 @@ Theorem C08_every_iteration_conserves_votes_whole_run : forall A S (ZL : zlike A
 Proof. exact count_meek_iterations. Qed.
 Print Assumptions C08_every_iteration_conserves_votes_whole_run.
 
+(* ... and under the arithmetics whose comparisons and explicit roundings are exact (Fixed, integer, Guarded with guard 0),
+   in every 'iterate' snapshot of such a count: no tally is negative, a hopeful candidate's keep factor is 1, an elected
+   one's lies in (0, 1], a defeated or withdrawn one's is 0 (kfs reads an unset factor as 0), and the residual is not
+   negative.  Under Guarded arithmetic with guard > 0 this is false (open findings K1, K9-K12). *)
+Theorem C08_keep_factors_in_range_nothing_negative_whole_run : forall A S (ZL : zlike A S) cfg, cf_method cfg = MMeek ->
+  exact A = false -> 0 <= cf_nseats cfg -> 0 <= cf_nballots cfg ->
+  forall pr fuel s k, wf_profile_m pr ->
+  exec (@crashed A) fuel (count_cmd A cfg RMeek) (init_state A cfg pr) = Some (s, k) -> k <> Abort ->
+  forall a sn, In a (actions s) -> a_tag a = TIterate -> a_snap a = Some sn ->
+  (forall x, In x (as_c sn) -> 0 <= raw ZL (sn_vote x) /\
+     match sn_st x with
+     | Hopeful => kfs A S ZL (sn_kf x) = S
+     | Elected => 0 < kfs A S ZL (sn_kf x) <= S
+     | Defeated | Withdrawn => kfs A S ZL (sn_kf x) = 0
+     end) /\
+  match as_nt sn with Some r => 0 <= raw ZL r | None => True end.
+Proof. exact count_meek_kf_ranges. Qed.
+Print Assumptions C08_keep_factors_in_range_nothing_negative_whole_run.
+
 (* the hypotheses are satisfiable and the conclusion is not empty: a meek count of a well-formed profile with an
    equal-rank ballot under Fixed(4) ends normally and records iterate actions with snapshots *)
 Definition c08_profile : profile :=
@@ -98,5 +117,5 @@ Proof.
                    |exists (mkPcand 3 3 3 "C" "3" false false); split; [cbn; tauto|split; reflexivity]]|]); contradiction. }
   split; [split; [repeat constructor; cbn; intuition (try discriminate; try lia)|]|].
   - intros m r H. cbn in H. destruct H as [H|[H|[H|[]]]]; inversion H; subst; (split; [lia|]); intros c Hin; apply Hc; cbn in *; tauto.
-  - intros m r H g c Hg Hin. cbn in H. destruct H as [H|[]]. inversion H; subst. apply Hc. cbn in Hg. destruct Hg as [<-|[<-|[]]]; cbn in *; tauto.
+  - intros m r H. cbn in H. destruct H as [H|[]]. inversion H; subst. split; [lia|]. intros g c Hg Hin. apply Hc. cbn in Hg. destruct Hg as [<-|[<-|[]]]; cbn in *; tauto.
 Qed.
